@@ -259,6 +259,25 @@ Proof.
   intros t H. do 4 (destruct t as [|t]; [reflexivity|]). exfalso. lia.
 Qed.
 
+Definition aba3_full_sched : list (nat * unit) := solo 2 60 ++ map (fun t => (t, tt)) aba3_sched ++ solo 3 60.
+Definition aba4_full_sched : list (nat * unit) := solo 2 100 ++ map (fun t => (t, tt)) aba4_sched ++ solo 3 60.
+
+Lemma aba_mirror_witnesses_immune :
+  let c1 := run dq_tstep aba3_full_sched (dq_init aba_k, dq_locals aba3_progs) in
+  let c2 := run dq_tstep aba4_full_sched (dq_init aba_k, dq_locals aba4_progs) in
+  (forall t, (t < 4)%nat -> dq_done (snd c1 t) = true) /\ (forall t, (t < 4)%nat -> dq_done (snd c2 t) = true) /\
+  dq_results 0 (dlog (fst c1)) = [None; Some 100; Some 5; Some 6] /\
+  dq_results 0 (dlog (fst c2)) = [None; Some 5; Some 7] /\
+  dq_results 3 (dlog (fst c1)) = [None; None; None; None; None] /\
+  dq_results 3 (dlog (fst c2)) = [None; None; None; None; None] /\
+  perm_b (popped_vals (dlog (fst c1))) (pushed_vals (dlog (fst c1))) = true /\
+  perm_b (popped_vals (dlog (fst c2))) (pushed_vals (dlog (fst c2))) = true /\
+  aba (fst c1) = false /\ aba (fst c2) = false.
+Proof.
+  vm_compute. repeat split; try reflexivity;
+    (intros t H; do 4 (destruct t as [|t]; [reflexivity|]); exfalso; lia).
+Qed.
+
 (* ------------------------------------------------------------------ Part D: one thread *)
 Definition mkl (td : list dop) (p : dq_pc) : dq_local := {| dtodo := td; dpc := p |}.
 Definition sstep (t : nat) (x : dq_shared * dq_local) : dq_shared * dq_local := dq_tstep tt t (fst x) (snd x).
